@@ -302,13 +302,12 @@ def rule_sparse_default(chk, prog):
     """C04 (holes expanded): is_sparse_region() may answer "data" only with evidence: the entry has no sparse map at all, or
     an extent of the map was compared against the offset (its count field takes part in the deciding comparison).
     Everything outside the listed extents -- in front of, between and behind them -- is a hole."""
-    f = None
-    for g in prog.functions():
-        if g.name == "is_sparse_region" and g.unit.src == "lib/tar/src/iterator.c":
-            f = g
-    if f is None:
-        chk.broke("is_sparse_region not found in lib/tar/src/iterator.c")
+    from ..anchors import sparse_classifier
+    cands = [g for g in sparse_classifier(prog) if g.ret in ("i1", "i8")]
+    if not cands:
+        chk.broke("no boolean function reading the sparse map's extents found in lib/tar/src/iterator.c")
         return
+    f = cands[0]
     f.build()
     chk.analysed(f)
     n = 0
@@ -337,7 +336,7 @@ def rule_sparse_default(chk, prog):
                 sl = backward_slice(c, through_loads=True, phi_control=False)
                 if any(_load_field(i) and "sparse_map" in _load_field(i)[0] and _load_field(i)[1] == "count" for i in sl):
                     ev = "extent covers the offset"
-        inst = "is_sparse_region:data@%d" % (b.term.line or 0)
+        inst = "%s:data@%d" % (f.name, b.term.line or 0)
         if ev:
             chk.ok("K12-sparse", inst, b.term, "answers 'data' with evidence: " + ev)
         else:
